@@ -271,8 +271,8 @@ example : ((toText env0 true u0).toOption.map fun t =>
 /-- FULL STATEMENT: see `render_fixed_full_partial`.  PROVED PART (second family of shapes): render → parse →
     render is the identity on the text for every URL WITHOUT authority (`WFna`: no host, no userinfo; a scheme -
     whether or not it uses a netloc - or none, i.e. a relative reference; at least one path segment; arbitrary
-    texts in path segments, query and fragment; in a relative reference the first segment renders without a raw
-    `:`).  Covers `scheme:rootless/path`, `scheme:/abs`, `scheme:///abs` (the `//` written for a netloc scheme
+    texts in path segments, query and fragment - a `:` in the first segment of a relative reference included:
+    `to_text` escapes it, `colon_escape_invisible`).  Covers `scheme:rootless/path`, `scheme:/abs`, `scheme:///abs` (the `//` written for a netloc scheme
     with an empty authority, and for a path that begins with `//`), `/abs`, `rel/path`, `?q`, `#f`, the empty
     reference.  What comes back (`normalN`): the components NFC-normalised, `//` remembered, no port. -/
 theorem render_fixed_full_noauth_partial (env : Env) (hl : NfcLaws env.nfc) (u : URL) (hW : WFna env u) :
@@ -296,6 +296,12 @@ theorem render_fixed_min_noauth_partial (env : Env) (u : URL) (hW : WFnaMin env 
     intro kv _
     obtain ⟨k, v⟩ := kv
     cases v <;> rfl, rfl⟩
+
+/-- the colon escape that `to_text` applies to the first path segment of a relative reference
+    (`first.replace(':', '%3A')`) is invisible to `unquote`, and leaves no raw `:` behind (nothing the parser could
+    read as the end of a scheme) -/
+theorem colon_escape_invisible (q : Text) : unquote (escColon q) = unquote q ∧ 58 ∉ escColon q :=
+  ⟨unquote_escColon q, escColon_no_colon q⟩
 
 /-- the `//` that `to_text` writes without an authority is remembered by the parser and written again, and a
     URL parsed without `//` does not get one (whatever the scheme tables say) -/
@@ -322,7 +328,6 @@ theorem wfna_mail : WFna env0 uMail where
   user_nil := rfl
   pw_nil := rfl
   parts_ne := by decide
-  no_colon := by intro h; cases h
   query_ok := by decide
   scalars := ⟨by decide, by decide, by decide, by decide, by
     intro kv hkv
@@ -337,7 +342,6 @@ theorem wfna_file : WFna env0 (uPath [102, 105, 108, 101] [[], [101, 32, 116], [
   user_nil := rfl
   pw_nil := rfl
   parts_ne := by decide
-  no_colon := by intro h; cases h
   query_ok := by decide
   scalars := ⟨by decide, by decide, by decide, by decide, by intro kv hkv; cases hkv⟩
 
@@ -348,7 +352,6 @@ theorem wfna_rel : WFna env0 (uPath [] [[], [101, 32, 116], [99]]) where
   user_nil := rfl
   pw_nil := rfl
   parts_ne := by decide
-  no_colon := by intro _; decide +kernel
   query_ok := by decide
   scalars := ⟨by decide, by decide, by decide, by decide, by intro kv hkv; cases hkv⟩
 
@@ -359,7 +362,6 @@ theorem wfna_slashes : WFna env0 (uPath [] [[], [], [99]]) where
   user_nil := rfl
   pw_nil := rfl
   parts_ne := by decide
-  no_colon := by intro _; decide +kernel
   query_ok := by decide
   scalars := ⟨by decide, by decide, by decide, by decide, by intro kv hkv; cases hkv⟩
 
@@ -369,11 +371,25 @@ theorem wfnamin_rel : WFnaMin env0 (uPath [] [[], [101, 32, 116], [99]]) where
   user_nil := rfl
   pw_nil := rfl
   parts_ne := by decide
-  no_colon := by intro _; decide +kernel
   query_ok := by decide
   no_pct_parts := by decide
   no_pct_query := by intro kv hkv; cases hkv
   no_pct_frag := by decide
+
+/-- the relative reference with the segments `a:b` and `c:d`: renders as `a%3Ab/c:d`-like text without a raw colon
+    before the first `/` -/
+theorem wfna_rel_colon : WFna env0 (uPath [] [[97, 58, 98], [99, 58, 100]]) where
+  scheme_ok := by decide
+  host_nil := rfl
+  user_nil := rfl
+  pw_nil := rfl
+  parts_ne := by decide
+  query_ok := by decide
+  scalars := ⟨by decide, by decide, by decide, by decide, by intro kv hkv; cases hkv⟩
+
+example : ((toText env0 true (uPath [] [[97, 58, 98], [99, 58, 100]])).toOption.map fun t =>
+    ((t.takeWhile (· != 47)).contains 58, (URL.ofText env0 t).toOption.map (·.pathParts))) =
+    some (false, some [[97, 58, 98], [99, 58, 100]]) := by decide +kernel
 
 /- `mailto:` has no `//`, `file:` gets one with an empty authority, and so does the relative path `//c`: the
    slashes in the renderings are 0 / 4 (`file:` + `//` + `/e%20t/c`) / 4 (`//` + `//c`) -/
